@@ -45,6 +45,18 @@ Proof.
 Qed.
 Print Assumptions C18_tree_race_free.
 
+(* 3b. No write is made under a merely shared (RLock) hold, and every function
+   body that the C01/C02/C09/C12 models treat as ONE atomic step is a single
+   critical section in the current source (lock taken exactly once, nothing
+   guarded touched outside it, no callee re-taking the lock). *)
+Theorem C18_tree_no_write_under_rlock : writes_under_rlock accesses = [].
+Proof. vm_compute. reflexivity. Qed.
+Print Assumptions C18_tree_no_write_under_rlock.
+
+Theorem C18_tree_atomic_steps : atomic_ok atomic_report = true /\ atomic_report <> [].
+Proof. split; [vm_compute; reflexivity | discriminate]. Qed.
+Print Assumptions C18_tree_atomic_steps.
+
 (* 4. Interference on per-transaction state. Full statement: whatever the
    interleaving, a processor that asks for the flow's transactional context
    during a transaction gets one. *)
